@@ -39,6 +39,7 @@ require (
 	k8s.io/apimachinery v0.20.4
 	k8s.io/client-go v0.20.2
 	k8s.io/component-base v0.20.2
+	k8s.io/klog v0.3.0
 	k8s.io/klog/v2 v2.4.0
 	k8s.io/kube-openapi v0.0.0-00010101000000-000000000000 // indirect
 )
